@@ -183,13 +183,40 @@ func schedulesFor(r *core.Rng, s *gen.Stream, tier string, allSplitsMax int, nRa
 
 // RunC09 is one simulated run: one generated stream under all its schedules.
 func RunC09(r *core.Rng, run uint64, seed uint64, tier string, cov *Cov) []*Violation {
+	if run%40 == 7 {
+		// a literal dump captured from the real runtime / race detector
+		if cp := gen.Corpus(); len(cp) > 0 {
+			e := cp[int(run/40)%len(cp)]
+			cov.Probe("literal-corpus")
+			return runC09Stream(r, nil, &gen.Stream{Bytes: e.Data, Lines: rawLines(e.Data)}, run, seed, tier, cov)
+		}
+	}
 	cfg := gen.DefaultCfg(r)
 	doc := gen.Generate(r, cfg)
 	return runC09Doc(r, doc, run, seed, tier, cov)
 }
 
+// rawLines splits literal bytes into lines (no structure known).
+func rawLines(b []byte) []gen.Line {
+	var out []gen.Line
+	st := 0
+	for i, c := range b {
+		if c == '\n' {
+			out = append(out, gen.Line{Start: st, End: i + 1, Class: gen.Junk, Item: -1, Gor: -1, Term: true})
+			st = i + 1
+		}
+	}
+	if st < len(b) {
+		out = append(out, gen.Line{Start: st, End: len(b), Class: gen.Junk, Item: -1, Gor: -1})
+	}
+	return out
+}
+
 func runC09Doc(r *core.Rng, doc *gen.Doc, run, seed uint64, tier string, cov *Cov) []*Violation {
-	s := gen.Render(doc)
+	return runC09Stream(r, doc, gen.Render(doc), run, seed, tier, cov)
+}
+
+func runC09Stream(r *core.Rng, doc *gen.Doc, s *gen.Stream, run, seed uint64, tier string, cov *Cov) []*Violation {
 	b := s.Bytes
 	nameArgs := r.Chance(0.7)
 	ih := core.Hash(b)
@@ -202,9 +229,12 @@ func runC09Doc(r *core.Rng, doc *gen.Doc, run, seed uint64, tier string, cov *Co
 	scheds := schedulesFor(r, s, tier, 6144, nr)
 	var vs []*Violation
 	seen := map[string]bool{}
-	hasDump := len(s.Dumps) > 0
+	hasDump := len(s.Dumps) > 0 || doc == nil
 	for _, sc := range scheds {
 		c := &Case{Prop: "C09", Run: run, Seed: seed, Mode: "loop", Doc: doc, Sched: sc, NameArgs: nameArgs}
+		if doc == nil {
+			c.Raw = b
+		}
 		got, gt, sr := loopUnder(b, sc, nameArgs, cov, false)
 		_ = sr
 		cov.Note(ih, sc, hasDump, "")
